@@ -111,6 +111,7 @@ type Exec struct {
 	isConcrete bool
 	initRoot   *ssa.Function
 	overridePos, overrideFn string
+	nowCount   int
 }
 
 func (ex *Exec) pos() string {
